@@ -1,1 +1,218 @@
 // Kani contract harnesses for /repo/parquet/src/data_type.rs (child module: sees private items via super::)
+use super::*;
+use crate::util::bit_util::FromBytes;
+#[path = "/verif/kani/support/spec.rs"]
+mod spec;
+use spec::*;
+
+// Contract (C05): for every value x of a fixed-width physical/native type, AsBytes::as_bytes(x) is its
+// little-endian byte string of exactly size_of::<T>() bytes (the PLAIN encoding), and both decoders
+// invert it bit-exactly: FromBytes::from_le_bytes(bytes) = x and try_from_le_slice(bytes ++ extra) = Ok(x)
+// (extra trailing bytes are ignored: "may be called with zero-padded values"), while a slice shorter than
+// the type is Err, never a panic. Floats are compared by bit pattern (NaN payloads survive).
+// Stub: alloc::fmt::format.
+macro_rules! le_roundtrip {
+    ($name:ident, $t:ty, $n:expr, $bits:ty) => {
+        #[kani::proof]
+        #[kani::stub(alloc::fmt::format, stub_format)]
+        fn $name() {
+            let raw: [u8; $n] = kani::any();
+            let x = <$t>::from_ne_bytes(raw);
+            let b = x.as_bytes();
+            assert!(b.len() == $n);
+            // little-endian layout, stated on the integer image: byte i = bits [8i, 8i+8)
+            let img = <$bits>::from_ne_bytes(raw);
+            let i: usize = kani::any();
+            kani::assume(i < $n);
+            assert!(b[i] == ((img >> (8 * i)) & 0xff) as u8);
+            let mut arr = [0u8; $n];
+            arr.copy_from_slice(b);
+            let y = <$t as FromBytes>::from_le_bytes(arr);
+            assert!(y.to_ne_bytes() == raw);
+            // slice decoder: long enough (with arbitrary padding) -> same value; too short -> Err
+            let mut padded = [0u8; $n + 3];
+            let pad: [u8; 3] = kani::any();
+            padded[..$n].copy_from_slice(b);
+            padded[$n..].copy_from_slice(&pad);
+            let len: usize = kani::any();
+            kani::assume(len <= $n + 3);
+            let r = <$t as FromBytes>::try_from_le_slice(&padded[..len]);
+            assert!(r.is_ok() == (len >= $n));
+            if let Ok(z) = &r {
+                assert!(z.to_ne_bytes() == raw);
+            }
+            kani::cover!(r.is_ok() && len == $n + 3);
+            kani::cover!(r.is_err() && len + 1 == $n);
+            kani::cover!(b[$n - 1] == 0x80);
+            std::mem::forget(r);
+        }
+    };
+}
+// @unit name=le_roundtrip_i8 props=C05 kind=complete fns=AsBytes<i8>::as_bytes,FromBytes<i8>::from_le_bytes,FromBytes<i8>::try_from_le_slice
+le_roundtrip!(le_roundtrip_i8, i8, 1, u8);
+// @unit name=le_roundtrip_u8 props=C05 kind=complete fns=AsBytes<u8>::as_bytes,FromBytes<u8>::from_le_bytes,FromBytes<u8>::try_from_le_slice
+le_roundtrip!(le_roundtrip_u8, u8, 1, u8);
+// @unit name=le_roundtrip_i16 props=C05 kind=complete fns=AsBytes<i16>::as_bytes,FromBytes<i16>::from_le_bytes,FromBytes<i16>::try_from_le_slice
+le_roundtrip!(le_roundtrip_i16, i16, 2, u16);
+// @unit name=le_roundtrip_u16 props=C05 kind=complete fns=AsBytes<u16>::as_bytes,FromBytes<u16>::from_le_bytes,FromBytes<u16>::try_from_le_slice
+le_roundtrip!(le_roundtrip_u16, u16, 2, u16);
+// @unit name=le_roundtrip_i32 props=C05 kind=complete fns=AsBytes<i32>::as_bytes,FromBytes<i32>::from_le_bytes,FromBytes<i32>::try_from_le_slice
+le_roundtrip!(le_roundtrip_i32, i32, 4, u32);
+// @unit name=le_roundtrip_u32 props=C05 kind=complete fns=AsBytes<u32>::as_bytes,FromBytes<u32>::from_le_bytes,FromBytes<u32>::try_from_le_slice
+le_roundtrip!(le_roundtrip_u32, u32, 4, u32);
+// @unit name=le_roundtrip_i64 props=C05 kind=complete fns=AsBytes<i64>::as_bytes,FromBytes<i64>::from_le_bytes,FromBytes<i64>::try_from_le_slice
+le_roundtrip!(le_roundtrip_i64, i64, 8, u64);
+// @unit name=le_roundtrip_u64 props=C05 kind=complete fns=AsBytes<u64>::as_bytes,FromBytes<u64>::from_le_bytes,FromBytes<u64>::try_from_le_slice
+le_roundtrip!(le_roundtrip_u64, u64, 8, u64);
+// @unit name=le_roundtrip_f32 props=C05 kind=complete fns=AsBytes<f32>::as_bytes,FromBytes<f32>::from_le_bytes,FromBytes<f32>::try_from_le_slice
+le_roundtrip!(le_roundtrip_f32, f32, 4, u32);
+// @unit name=le_roundtrip_f64 props=C05 kind=complete fns=AsBytes<f64>::as_bytes,FromBytes<f64>::from_le_bytes,FromBytes<f64>::try_from_le_slice
+le_roundtrip!(le_roundtrip_f64, f64, 8, u64);
+
+// Contract (C05): bool: as_bytes is the single byte 0/1; from_le_bytes / try_from_le_slice decode any
+// non-zero byte as true (PLAIN booleans are bit-packed elsewhere; this is the byte form) and invert as_bytes.
+// @unit name=le_roundtrip_bool props=C05 kind=complete fns=AsBytes<bool>::as_bytes,FromBytes<bool>::from_le_bytes,FromBytes<bool>::try_from_le_slice
+#[kani::proof]
+#[kani::stub(alloc::fmt::format, stub_format)]
+fn le_roundtrip_bool() {
+    let x: bool = kani::any();
+    let b = x.as_bytes();
+    assert!(b.len() == 1 && b[0] == x as u8);
+    assert!(<bool as FromBytes>::from_le_bytes([b[0]]) == x);
+    let raw: [u8; 2] = kani::any();
+    let len: usize = kani::any();
+    kani::assume(len <= 2);
+    let r = <bool as FromBytes>::try_from_le_slice(&raw[..len]);
+    assert!(r.is_ok() == (len >= 1));
+    if let Ok(v) = &r {
+        assert!(*v == (raw[0] != 0));
+    }
+    kani::cover!(matches!(r, Ok(true)) && raw[0] == 2);
+    kani::cover!(r.is_err());
+    std::mem::forget(r);
+}
+
+// Contract (C05): Int96 is three little-endian u32 words [nanos_lo, nanos_hi, julian_day]:
+// set_data/data round-trip; as_bytes is the 12-byte little-endian image; from_le_bytes and
+// try_from_le_slice invert it (Err on fewer than 12 bytes, extra bytes ignored).
+// @unit name=int96_bytes_roundtrip props=C05 kind=complete fns=Int96::new,Int96::set_data,Int96::data,AsBytes<Int96>::as_bytes,FromBytes<Int96>::from_le_bytes,FromBytes<Int96>::try_from_le_slice
+#[kani::proof]
+#[kani::stub(alloc::fmt::format, stub_format)]
+fn int96_bytes_roundtrip() {
+    let w: [u32; 3] = kani::any();
+    let mut x = Int96::new();
+    assert!(x.data()[0] == 0 && x.data()[1] == 0 && x.data()[2] == 0 && x.data().len() == 3);
+    x.set_data(w[0], w[1], w[2]);
+    assert!(x.data()[0] == w[0] && x.data()[1] == w[1] && x.data()[2] == w[2]);
+    let b = x.as_bytes();
+    assert!(b.len() == 12);
+    let i: usize = kani::any();
+    kani::assume(i < 12);
+    assert!(b[i] == ((w[i / 4] >> (8 * (i % 4))) & 0xff) as u8);
+    let mut arr = [0u8; 12];
+    arr.copy_from_slice(b);
+    let y = <Int96 as FromBytes>::from_le_bytes(arr);
+    assert!(y == x && y.data()[0] == w[0] && y.data()[1] == w[1] && y.data()[2] == w[2]);
+    let mut padded = [0u8; 14];
+    padded[..12].copy_from_slice(b);
+    padded[12] = kani::any();
+    padded[13] = kani::any();
+    let len: usize = kani::any();
+    kani::assume(len <= 14);
+    let r = <Int96 as FromBytes>::try_from_le_slice(&padded[..len]);
+    assert!(r.is_ok() == (len >= 12));
+    if let Ok(z) = &r {
+        assert!(*z == x);
+    }
+    kani::cover!(r.is_ok() && len == 14);
+    kani::cover!(r.is_err() && len == 11);
+    std::mem::forget(r);
+}
+
+const J: i128 = 2_440_588; // Julian day number of 1970-01-01 (Parquet INT96 timestamp convention)
+
+// Contract (C05): Int96 timestamp conversions are exact modulo 2^64 ("will wrap around on overflow"):
+// with day = word 2 as i32 and nanos = (word1 << 32 | word0) as i64,
+//   to_nanos  = (day - J) * 86_400_000_000_000 + nanos                (mod 2^64)
+//   to_micros = (day - J) * 86_400_000_000 + trunc(nanos / 1_000)     (mod 2^64)
+//   to_millis = (day - J) * 86_400_000 + trunc(nanos / 1_000_000)     (mod 2^64)
+//   to_seconds= (day - J) * 86_400 + trunc(nanos / 1_000_000_000)     (mod 2^64)
+// computed on the spec side in 128-bit arithmetic; the truncated quotient q is characterised without a
+// division: |nanos - q*d| < d and the remainder has the sign of nanos. No panic for any 96-bit pattern.
+fn int96_to_unit(d: i64, sel: u8) {
+    let w: [u32; 3] = kani::any();
+    let mut x = Int96::new();
+    x.set_data(w[0], w[1], w[2]);
+    let day = w[2] as i32 as i128;
+    let nanos = (((w[1] as u64) << 32) | w[0] as u64) as i64;
+    let per_day = 86_400_000_000_000i128 / d as i128;
+    let got = match sel {
+        0 => x.to_nanos(),
+        1 => x.to_micros(),
+        2 => x.to_millis(),
+        _ => x.to_seconds(),
+    };
+    // q := got - (day - J) * per_day  (mod 2^64, read as a signed 64-bit number): the sub-day part
+    let q = ((got as i128) - (day - J) * per_day) as i64;
+    // q = trunc(nanos / d)  <=>  q*d does not overflow, |nanos - q*d| < d, remainder has the sign of nanos
+    let qd = q.checked_mul(d);
+    assert!(qd.is_some());
+    let rem = (nanos as i128) - (qd.unwrap() as i128);
+    assert!(rem > -(d as i128) && rem < d as i128);
+    assert!(rem == 0 || (rem > 0) == (nanos > 0));
+    kani::cover!(nanos < 0 && (d == 1 || rem != 0));
+    kani::cover!(day == J && nanos == d && got == 1);
+    kani::cover!(day == i32::MIN as i128);
+    kani::cover!(day == J + 1 && nanos == 0 && got as i128 == per_day);
+}
+// @unit name=int96_to_nanos_def props=C05 kind=complete fns=Int96::to_nanos,Int96::data_as_days_and_nanos,Int96::get_days,Int96::get_nanos
+#[kani::proof]
+fn int96_to_nanos_def() {
+    int96_to_unit(1, 0)
+}
+// @unit name=int96_to_micros_def props=C05 kind=complete fns=Int96::to_micros tier=thorough timeout=900 mem=2
+#[kani::proof]
+fn int96_to_micros_def() {
+    int96_to_unit(1_000, 1)
+}
+// (64-bit signed division by the constant 10^6: pure SAT hardness, 40 MB; not confirmed under load)
+// @unit name=int96_to_millis_def props=C05 kind=complete fns=Int96::to_millis tier=thorough timeout=900 mem=2
+#[kani::proof]
+fn int96_to_millis_def() {
+    int96_to_unit(1_000_000, 2)
+}
+// (64-bit signed division by the constant 10^9: pure SAT hardness, 40 MB; not confirmed under load)
+// @unit name=int96_to_seconds_def props=C05 kind=complete fns=Int96::to_seconds tier=thorough timeout=900 mem=2
+#[kani::proof]
+fn int96_to_seconds_def() {
+    int96_to_unit(1_000_000_000, 3)
+}
+
+// Contract (C05): ByteArray / FixedLenByteArray: FromBytes::try_from_le_slice(s) and from_le_bytes(vec)
+// hold exactly the bytes given (length and contents), and AsBytes returns them again. Bound: 4 bytes
+// (allocation size concrete: grid rule); Bytes-bearing values are forgotten.
+// @unit name=byte_array_roundtrip props=C05 kind=bounded bound=payload=4_bytes fns=FromBytes<ByteArray>::try_from_le_slice,FromBytes<ByteArray>::from_le_bytes,FromBytes<FixedLenByteArray>::try_from_le_slice,AsBytes<ByteArray>::as_bytes,AsBytes<FixedLenByteArray>::as_bytes timeout=480 mem=3
+#[kani::proof]
+#[kani::unwind(6)]
+#[kani::stub(alloc::fmt::format, stub_format)]
+fn byte_array_roundtrip() {
+    let s: [u8; 4] = kani::any();
+    let i: usize = kani::any();
+    kani::assume(i < 4);
+    let a = <ByteArray as FromBytes>::try_from_le_slice(&s);
+    match &a {
+        Ok(v) => assert!(v.len() == 4 && v.data()[i] == s[i] && v.as_bytes()[i] == s[i] && v.as_bytes().len() == 4),
+        Err(_) => assert!(false),
+    }
+    std::mem::forget(a);
+    let b = <ByteArray as FromBytes>::from_le_bytes(s.to_vec());
+    assert!(b.len() == 4 && b.data()[i] == s[i]);
+    std::mem::forget(b);
+    let f = <FixedLenByteArray as FromBytes>::try_from_le_slice(&s);
+    match &f {
+        Ok(v) => assert!(v.len() == 4 && v.data()[i] == s[i] && v.as_bytes()[i] == s[i]),
+        Err(_) => assert!(false),
+    }
+    kani::cover!(s[3] == 0xff);
+    std::mem::forget(f);
+}
